@@ -91,7 +91,7 @@ impl Prop for C18 {
         "C18"
     }
     fn rule(&self) -> String {
-        "pairs (a, b) that must compile to byte-identical CSS (or both fail): rule trees printed as SCSS and as indented Sass by two independent printers; generated plain-CSS sheets parsed as CSS and as SCSS; the same plus one Sass-only construct, which CSS mode must reject (30 constructs, enumerated over generated sheets); and rewrites of SCSS sources (corpus, generated value-heavy sheets, rule trees): LF -> CRLF / CR / FF at syntactic newlines, leading BOM, leading @charset, whitespace and silent comments inserted after ; { } at statement level, `_` <-> `-` exchanged independently at each occurrence in $variables and user-defined function/mixin names. Non-trivial = the rewrite touched >= 5 positions, or the tree has nesting depth >= 3 / the CSS sheet has >= 3 statements; distinct by (relation, a, b).".into()
+        "pairs (a, b) that must compile to byte-identical CSS (or both fail): rule trees and SassScript programs (control flow, mixins with content blocks, functions) printed as SCSS and as indented Sass by two independent printers each (programs: same @debug/@warn messages too); generated plain-CSS sheets parsed as CSS and as SCSS; the same plus one Sass-only construct, which CSS mode must reject (30 constructs, enumerated over generated sheets); and rewrites of SCSS sources (corpus, generated value-heavy sheets, rule trees): LF -> CRLF / CR / FF at syntactic newlines, leading BOM, leading @charset, whitespace and silent comments inserted after ; { } at statement level, single spaces inside declaration / variable values replaced by newlines, tabs, CRLF or a silent comment, `_` <-> `-` exchanged independently at each occurrence in $variables and user-defined function/mixin names. Non-trivial = the rewrite touched >= 5 positions, or the tree has nesting depth >= 3 / the CSS sheet has >= 3 statements; distinct by (relation, a, b).".into()
     }
     fn assumptions(&self) -> Vec<String> {
         vec![
@@ -112,6 +112,16 @@ impl Prop for C18 {
             let b = ruletree::print_sass(&t);
             mk("scss-vs-sass", a, Syntax::Scss, b, Syntax::Sass, "same", compressed, sh.depth, "")
         });
+        let two_printers_prog = (
+            crate::gen::program::program_strategy(crate::gen::program::GenCfg { avoid_calls_in_named: true, avoid_quoted_logs: false, avoid_calls_in_warn: false, avoid_space_splat: false, ..Default::default() }),
+            any::<bool>(),
+        )
+            .prop_map(|(p, compressed)| {
+                let a = crate::gen::program::print_scss(&p).text;
+                let b = crate::gen::program::print_sass(&p).text;
+                let depth = a.lines().map(|l| l.chars().take_while(|c| *c == ' ').count() / 2).max().unwrap_or(0);
+                mk("scss-vs-sass-program", a, Syntax::Scss, b, Syntax::Sass, "same", compressed, depth.max(3), "")
+            });
         let css_vs_scss = (choices(120), any::<bool>()).prop_map(|(ch, compressed)| {
             let mut c = Chooser::new(&ch);
             let css = gen_css(&mut c);
@@ -135,7 +145,7 @@ impl Prop for C18 {
         let rewrites = (src(), any::<u8>(), choices(200), any::<bool>()).prop_map(|(s, kind, ch, compressed)| {
             let (a, class) = realize(&s);
             let mut c = Chooser::new(&ch);
-            match kind % 7 {
+            match kind % 9 {
                 0 => {
                     let (b, n) = rewrite::newlines(&a, "\r\n");
                     mk("newline-crlf", a, Syntax::Scss, b, Syntax::Scss, "same", compressed, n, class)
@@ -160,14 +170,18 @@ impl Prop for C18 {
                     let (b, n) = rewrite::gaps(&a, &mut c);
                     mk("gaps", a, Syntax::Scss, b, Syntax::Scss, "same", compressed, n, class)
                 }
+                6 | 7 => {
+                    let (b, n) = rewrite::value_gaps(&a, &mut c);
+                    mk("value-gaps", a, Syntax::Scss, b, Syntax::Scss, "same", compressed, n, class)
+                }
                 _ => {
                     let (b, n) = rewrite::swap_names(&a, &mut c);
                     mk("underscore-hyphen", a, Syntax::Scss, b, Syntax::Scss, "same", compressed, n, class)
                 }
             }
         });
-        let s = prop_oneof![3 => two_printers, 2 => css_vs_scss, 1 => sass_only, 6 => rewrites].boxed();
-        Some((s, tier.pick(12_000, 300_000)))
+        let s = prop_oneof![3 => two_printers, 2 => two_printers_prog, 2 => css_vs_scss, 1 => sass_only, 6 => rewrites].boxed();
+        Some((s, tier.pick(48_000, 600_000)))
     }
     fn enumerate(&self, _tier: Tier) -> Vec<Case> {
         // every Sass-only construct once, in a fixed small sheet
@@ -183,11 +197,11 @@ impl Prop for C18 {
         cx.class(&format!("rel:{}", case.rel));
         // domain exclusions (see assumptions)
         match case.rel.as_str() {
-            "gaps" if rewrite::has_multiline_loud_comment(&case.a) => {
+            "gaps" | "value-gaps" if rewrite::has_multiline_loud_comment(&case.a) => {
                 cx.excluded("multi-line loud comment: re-indentation depends on its column");
                 return Verdict::Discard;
             }
-            "gaps" if case.a.contains("--") => {
+            "gaps" | "value-gaps" if case.a.contains("--") => {
                 cx.class("discard:custom-property-raw-value");
                 return Verdict::Discard;
             }
@@ -261,6 +275,14 @@ impl Prop for C18 {
                 } else {
                     x == y
                 };
+                let msgs = |r: &Res| r.logs.iter().map(|l| (l.kind.clone(), l.message.clone())).collect::<Vec<_>>();
+                if same && case.rel == "scss-vs-sass-program" && msgs(&ra) != msgs(&rb) {
+                    return Verdict::Fail(Failure::new(
+                        "scss-vs-sass-program:logs-differ",
+                        "the SCSS and the indented spelling of one program deliver different @debug/@warn messages",
+                        json!({"a_logs": msgs(&ra), "b_logs": msgs(&rb)}),
+                    ));
+                }
                 if same {
                     Verdict::Pass
                 } else {
